@@ -29,8 +29,8 @@ def run(chk):
     fn = src.func(UTIL, 'cumsum')
     k = analyse_rec(src)
     # R1 ------------------------------------------------------------------
-    for a in k.accesses.values():
-        chk.add('C19-R1', UTIL, 'cumsum', a.key, a.verdict, a.detail, line=a.line, witness=a.witness)
+    from ..core.kernels import add_bounds_obligations
+    add_bounds_obligations(chk, 'C19-R1', UTIL, 'cumsum', CONTRACTS, k=k)
     # R4 ------------------------------------------------------------------
     ok4 = bool(k.stores)
     for arr, axis, idx, st, node in k.stores:
